@@ -89,10 +89,17 @@ func (c *Client) ConsumerOffsets(ctx context.Context, tg TopicAndGroup) (map[int
 		return nil, fmt.Errorf("failed to get offsets: %w", err)
 	}
 
+	if offsets.Error != nil {
+		return nil, fmt.Errorf("failed to get offsets: %w", offsets.Error)
+	}
+
 	topicOffsets := offsets.Topics[topic.Name]
 	partitionOffsets := make(map[int]int64, len(topicOffsets))
 
 	for _, off := range topicOffsets {
+		if off.Error != nil {
+			return nil, fmt.Errorf("failed to get offsets of partition %d: %w", off.Partition, off.Error)
+		}
 		partitionOffsets[off.Partition] = off.CommittedOffset
 	}
 
